@@ -1,5 +1,9 @@
 import NitroVerif.Base.Sexp
 import NitroVerif.Model.Cli
+import NitroVerif.Gql.Codec
+import NitroVerif.Model.Paths
+import NitroVerif.Lemmas.CliComposed
+import NitroVerif.Lemmas.CliComposedCode
 /-!
 Line-protocol driver for C18 (model of the CLI driver, `NitroVerif/Model/Cli.lean`).
 
@@ -18,6 +22,17 @@ answer   (outcome (exit n) (error none | (e cmd|none kind)) (run c…) (diags ce
                   (declExt "ext"))   |   (panic)
            ce ::= (ce schema|operation cls pos tag)   jd ::= (jd schema|operation null|(f idx line col) tag)
            of ::= (of schema|server|resolvers|(op j) b)
+request  (composed (cmds c…) (schema (sf idx pr)…) (ops (of idx "path" pr io (paths (pos pos)…))…)
+                   (gen so ms rd sv rs mode) (sprinter b) (io io io io))
+           the COMPOSED model (`Lemmas/CliComposed.lean`, `stagesOf` + `runCli`) on a whole project.  The parsers are the
+           abstract parameter of the composition: the harness parses every file with the REAL parser and sends
+           pr ::= (ok (tsdoc …)) | (ok (doc …)) | (err line col tag)   (documents in the `Gql/Codec.lean` wire format, positions
+           with file indices); idx = the file index the harness parsed the file with (`parseTs` / `parseOp` answer only
+           when `stagesOf` asks with that very index); "path" = absolute path of the operation file; (paths …) =
+           (position of the `#import` line, position of its path literal) for every import line (`Env.pathPos`).
+answer   (outcome … as above, every tag a string … (stages (sext od) (scheck d…) (ops (op od od (chk d…))…)))
+           tag ::= "parse:<tag sent>" | "kind:<CheckErrorMessage variant>" | "msg:<message of the resolver error>"
+           d   ::= (d "tag" line col file b)
 request  (render "path" "source" line col "message" b)                       answer (ok "text") | (panic)
 request  (print (files ("path" "source")…) "message" none|pos ((pos "message")…))   answer (ok "text") | (panic)
 request  (lines "source")                                                   answer (ok "line"…)
@@ -95,7 +110,8 @@ def sCls : Cls → Sexp
   | .opExt => .atom "op-ext"
   | .opImport => .atom "op-import"
   | .opCheck => .atom "op-check"
-def sCe (e : CheckErr) : Sexp := .list [.atom "ce", sKind e.kind, sCls e.cls, sPos e.diag.pos, Sexp.ofNat e.diag.tag]
+def sCe (tagS : Nat → Sexp) (e : CheckErr) : Sexp :=
+  .list [.atom "ce", sKind e.kind, sCls e.cls, sPos e.diag.pos, tagS e.diag.tag]
 def sCmd : Cmd → Sexp
   | .check => .atom "check"
   | .generate => .atom "generate"
@@ -103,7 +119,7 @@ def sCmd : Cmd → Sexp
 def sOptCmd : Option Cmd → Sexp
   | none => .atom "none"
   | some c => sCmd c
-def sErrKind : ErrKind → Sexp
+def sErrKind : Cli.ErrKind → Sexp
   | .noCommand => .atom "no-command"
   | .parseFailed => .atom "parse-failed"
   | .unknownCommand => .atom "unknown-command"
@@ -123,15 +139,15 @@ def sLoc : Option (Nat × Nat × Nat) → Sexp
   | none => .atom "null"
   | some (f, l, c) => .list [.atom "f", Sexp.ofNat f, Sexp.ofNat l, Sexp.ofNat c]
 
-def sOutcome (r : Run) (o : Outcome) : Sexp :=
+def sOutcome (r : Run) (o : Outcome) (tagS : Nat → Sexp := Sexp.ofNat) (more : List Sexp := []) : Sexp :=
   let j := jsonView o
-  .list [.atom "outcome",
+  .list ([.atom "outcome",
     .list [.atom "exit", Sexp.ofNat o.exit],
     .list [.atom "error", match o.error with
       | none => .atom "none"
       | some e => .list [.atom "e", sOptCmd e.command, sErrKind e.kind]],
     .list (.atom "run" :: o.commandsRun.map sCmd),
-    .list (.atom "diags" :: o.diags.map sCe),
+    .list (.atom "diags" :: o.diags.map (sCe tagS)),
     .list (.atom "written" :: o.written.map sOf),
     .list (.atom "listed" :: o.listed.map sOf),
     .list [.atom "store", Sexp.ofNat o.store.schemaLen, Sexp.ofNat o.store.opLen],
@@ -141,15 +157,116 @@ def sOutcome (r : Run) (o : Outcome) : Sexp :=
         | some (c, k) => .list [.atom "e", sOptCmd c, sErrKind k]],
       .list [.atom "check", match j.check with
         | none => .atom "none"
-        | some ds => .list (.atom "some" :: ds.map fun d => .list [.atom "jd", sKind d.fileType, sLoc d.file, Sexp.ofNat d.tag])],
+        | some ds => .list (.atom "some" :: ds.map fun d => .list [.atom "jd", sKind d.fileType, sLoc d.file, tagS d.tag])],
       .list [.atom "generate", match j.generate with
         | none => .atom "none"
         | some fs => .list (.atom "some" :: fs.map sOf)]],
-    .list (.atom "rdjson" :: (rdjsonView o).map fun (l, t) => .list [.atom "rd", sLoc l, Sexp.ofNat t]),
+    .list (.atom "rdjson" :: (rdjsonView o).map fun (l, t) => .list [.atom "rd", sLoc l, tagS t]),
     .list [.atom "human", match humanView o with
       | none => .atom "none"
       | some (a, b) => .list [.atom "some", Sexp.ofNat a.length, Sexp.ofNat b.length]],
-    .list [.atom "declExt", .str r.gen.mode.declExt]]
+    .list [.atom "declExt", .str r.gen.mode.declExt]] ++ more)
+
+/-! ## the composed model (`stagesOf`) on a whole project -/
+namespace Composed
+open NitroVerif.Gql NitroVerif.CliComposed
+
+/-- the text of a file as the composition sees it: what the REAL parser answered when it was run with file index `idx` -/
+inductive PText where
+  | ts (idx : Nat) (r : PRes TsDoc)
+  | op (idx : Nat) (r : PRes Doc)
+
+/-- tags are the `nameCode` of a string (decoded again by `untag` when the answer is written) -/
+def strTag (s : String) : Nat := nameCode s
+
+partial def untagChars (n : Nat) : List Char :=
+  if n = 0 then [] else Char.ofNat (n % 1114113 - 1) :: untagChars (n / 1114113)
+
+def untag (n : Nat) : String := String.ofList (untagChars n)
+
+def tagS (n : Nat) : Sexp := .str (untag n)
+
+def mismatch {α : Type} (what : String) : PRes α := .error (0, 0, strTag ("harness:" ++ what))
+
+def pPRes {α : Type} (dec : Sexp → Option α) : Sexp → Option (PRes α)
+  | .list [.atom "ok", d] => (dec d).map .ok
+  | .list [.atom "err", l, c, t] => do pure (.error (← l.nat?, ← c.nat?, strTag s!"parse:{← t.nat?}"))
+  | _ => none
+
+def pSchemaFile : Sexp → Option PText
+  | .list [.atom "sf", idx, pr] => do pure (.ts (← idx.nat?) (← pPRes Dec.tsDoc pr))
+  | _ => none
+
+def pPathPair : Sexp → Option (Gql.Pos × Gql.Pos)
+  | .list [a, b] => do pure (← Dec.pos a, ← Dec.pos b)
+  | _ => none
+
+def pOpFile : Sexp → Option (OpInput PText Paths.P × List (Gql.Pos × Gql.Pos))
+  | .list [.atom "of", idx, .str path, pr, io, .list (.atom "paths" :: ps)] => do
+    pure (⟨Paths.normalize (Paths.components path), .op (← idx.nat?) (← pPRes Dec.doc pr), ← pIo io⟩, ← ps.mapM pPathPair)
+  | _ => none
+
+def extMessage : ExtResolve.ExtError → String
+  | .duplicateOriginal elem name _ _ => s!"Duplicated declaration of {elem} '{name}'"
+  | .noOriginal elem _ => s!"{elem} is extended, but there is no original declaration of {elem}"
+
+def opExtMessage : Imports.ExtErr → String
+  | .wildcardOnlyOnce _ => "Wildcard import should be specified only once"
+  | .wildcardCombined _ => "Wildcard import cannot be combined with specific import"
+
+def impMessage : Imports.ImpErr Paths.P String → String
+  | .fileNotFound _ rel _ => s!"File '{rel}' not found."
+  | .fragmentNotFound _ rel id => s!"'{untag id.name}' is not found in the imported file '{rel}'."
+
+def env (paths : List (Gql.Pos × Gql.Pos)) : Env PText Paths.P :=
+  { parseTs := fun i t => match t with
+      | .ts idx r => if idx = i then r else mismatch s!"schema-file-parsed-with-index-{idx}-asked-with-{i}"
+      | .op .. => mismatch "operation-file-asked-as-schema"
+    parseOp := fun i t => match t with
+      | .op idx r => if idx = i then r else mismatch s!"operation-file-parsed-with-index-{idx}-asked-with-{i}"
+      | .ts .. => mismatch "schema-file-asked-as-operation"
+    res := fun doc rel => Paths.resolve doc (Paths.components rel)
+    code := nameCode
+    pathPos := fun i => match paths.lookup i.pos with | some p => p | none => {}
+    tags :=
+      { schemaExt := fun e => strTag ("msg:" ++ extMessage e)
+        schemaCheck := fun k => strTag ("kind:" ++ k.asStr)
+        opExt := fun e => strTag ("msg:" ++ opExtMessage e)
+        opImport := fun e => strTag ("msg:" ++ impMessage e)
+        opCheck := fun k => strTag ("kind:" ++ k.toString) } }
+
+def pProject : Sexp → Option (Project PText Paths.P × List (Gql.Pos × Gql.Pos))
+  | .list [.atom "composed", .list (.atom "cmds" :: cs), .list (.atom "schema" :: ss), .list (.atom "ops" :: os),
+      .list [.atom "gen", so, ms, rd, sv, rs, mode], .list [.atom "sprinter", sp],
+      .list [.atom "io", i1, i2, i3]] => do
+    let ops ← os.mapM pOpFile
+    pure ({ cmds := ← cs.mapM pCmd, schemaTexts := ← ss.mapM pSchemaFile, ops := ops.map (·.1),
+            gen := ⟨← pBool so, ← pBool ms, ← pBool rd, ← pBool sv, ← pBool rs, ← pMode mode⟩,
+            schemaPrinterFails := ← pBool sp, ioSchema := ← pIo i1, ioServer := ← pIo i2, ioResolvers := ← pIo i3 },
+          ops.flatMap (·.2))
+  | _ => none
+
+def sD (d : Diag) : Sexp :=
+  .list [.atom "d", tagS d.tag, Sexp.ofNat d.pos.line, Sexp.ofNat d.pos.col, Sexp.ofNat d.pos.file, sBool d.pos.builtin]
+
+def sOptD : Option Diag → Sexp
+  | none => .atom "none"
+  | some d => sD d
+
+def sStages (r : Run) : Sexp :=
+  .list [.atom "stages", .list [.atom "sext", sOptD r.schemaExt], .list (.atom "scheck" :: r.schemaCheck.map sD),
+    .list (.atom "ops" :: r.opFiles.map fun f => .list [.atom "op", sOptD f.ext, sOptD f.imp, .list (.atom "chk" :: f.check.map sD)])]
+
+def answer (req : Sexp) : Sexp :=
+  match pProject req with
+  | none => .list [.atom "bad-request"]
+  | some (P, paths) =>
+    let r := stagesOf (env paths) P
+    match runCli r with
+    | some o => sOutcome r o tagS [sStages r]
+    | none => .list [.atom "panic"]
+
+end Composed
 
 def sText : Option (List Char) → Sexp
   | none => .list [.atom "panic"]
@@ -179,6 +296,7 @@ def handle : Sexp → Sexp
     | _, _ => .list [.atom "bad-request"]
   | .list [.atom "lines", .str src] => Sexp.ok ((lines src.toList).map fun l => .str (String.ofList l))
   | .list [.atom "flush"] => .list [.atom "flushed"]
+  | .list (.atom "composed" :: rest) => Composed.answer (.list (.atom "composed" :: rest))
   | req =>
     match pRun req with
     | some r => match runCli r with
